@@ -33,7 +33,7 @@ ALL_SRC = ['src/compression/gzip.c', 'src/compression/lz4.c', 'src/compression/s
            'src/writer/row_group_writer.c']
 FZ_MMAP = dict(kind='fuzz', harness='replay/fz/pages_mmap.c', sources=ALL_SRC, max_len=96, secs=25)
 C04R = dict(prop='C04', est_s=20, harness='harness/C04/pages.c', extra_sources=[], checks=['--memory-leak-check'],
-            cbmc_flags=MF, trusted=T_STUBS, wip=True, **PR)
+            cbmc_flags=MF, trusted=T_STUBS, wip=False, **PR)
 JOBS += [
     dict(name='c04_load_dictionary_page_mmap', replayer=FZ_MMAP, note='passes since /repo c6e3bde (page_window / page_sizes_ok); validated with c6e3bde reverted (fails) and targeted breakages', entry='h_c04_dict_mmap', functions=['load_dictionary_page_mmap', 'decompress_page'], wip_override=False, **C04R),
     dict(name='c04_load_dictionary_page_fread', note='passes since /repo c6e3bde (page_window / page_sizes_ok); validated with c6e3bde reverted (fails) and targeted breakages', entry='h_c04_dict_fread', functions=['load_dictionary_page_fread', 'decompress_page'], wip_override=False, **C04R),
@@ -58,7 +58,7 @@ JOBS += [
 # page decoders: harness-is-contract + loop contracts (enforce-contract's assigns instrumentation exhausts memory here)
 RD = dict(prop='C04', harness='harness/C04/pages.c', entry='h_c04_read_dictionary_page', overlays=['contracts/page_reader.ovl'],
           includes=['src'], loop_contracts=True, min_loop_obligations=1, extra_sources=[], cbmc_flags=MF,
-          checks=['--memory-leak-check'], trusted=T_STUBS[:1], functions=['carquet_read_dictionary_page'], wip=True)
+          checks=['--memory-leak-check'], trusted=T_STUBS[:1], functions=['carquet_read_dictionary_page'], wip=False)
 JOBS += [
     dict(name='c04_read_dictionary_page', defines=['PG_MEMCPY_SMALL=1', 'PG_NOT_FLBA=1'], est_s=80,
          note='FINDING F7 (genuine, native demo /tmp/pagesites/native/demo.c mode 7): byte-array dictionary entry with len >= 0xFFFFFFFC: '
@@ -99,5 +99,5 @@ JOBS += [
     dict(name='c19_load_next_page_mmap', entry='h_c04_page_mmap', defines=['PG_NOT_FLBA=1', 'PG_MEM_NOCONTENT=1'],
          functions=['load_next_page_mmap', 'load_dictionary_page_mmap', 'decompress_page'],
          note='shares residual finding F6 with c04_load_next_page_mmap (memset(NULL, 0, 0))',
-         **dict(C04R, prop='C19', wip=True)),
+         **dict(C04R, prop='C19', wip=False)),
 ]
